@@ -113,7 +113,7 @@ def load_known() -> list[dict]:
 
 
 _ALPHA_KEEP = {
-    "self", "cls", "np", "numpy", "xr", "xarray", "da", "dask", "pd", "pandas", "sp", "scipy", "math", "warnings",
+    "_recv", "self", "cls", "np", "numpy", "xr", "xarray", "da", "dask", "pd", "pandas", "sp", "scipy", "math", "warnings",
     "True", "False", "None", "len", "range", "int", "float", "bool", "str", "list", "tuple", "dict", "set", "zip", "enumerate",
     "min", "max", "sum", "abs", "sorted", "isinstance", "print", "any", "all", "map", "filter", "slice", "type", "complex",
 }
@@ -124,8 +124,9 @@ def alpha(construct: str) -> str:
     finding after a local variable was renamed.  Text that is not a Python statement is returned unchanged."""
     import ast as _ast
 
+    src = ("_recv" + construct) if construct.startswith(".") else construct
     try:
-        tree = _ast.parse(construct)
+        tree = _ast.parse(src)
     except (SyntaxError, ValueError):
         return construct
     names: dict[str, str] = {}
